@@ -89,11 +89,13 @@ ATTR_POOL = [
     ("slots", ["dict", ["str"], ["spec", "N"]]),
     ("items", ["keyedlist", "N"]),
     ("members", ["keyedset", "N"]),
+    ("vee", ["spec", "V"]),  # V has an init-overflow attribute; only in profiles with with_v=True
+    ("vees", ["list", ["spec", "V"]]),
 ]
 POOL_TYPES = dict(ATTR_POOL)
 SINGULAR = {
     "nums": "num", "names": "name", "weights": "weight", "scores": "score", "ids": "id", "tags": "tag", "parts": "part",
-    "children": "child", "boxes": "box", "slots": "slot", "items": "item", "members": "member", "notes": "note",
+    "children": "child", "boxes": "box", "slots": "slot", "items": "item", "members": "member", "notes": "note", "vees": "vee",
 }
 SCALAR_KINDS = {"int", "str", "float", "opt", "union", "literal", "tuple", "vtuple", "bounded", "validated", "any"}
 KEYS = ["", "a", "b", "c"]
@@ -235,6 +237,11 @@ def gen_value(src, T, good=True, depth=0):
 
 
 def gen_spec(src, cname, depth=0, key=None):
+    if cname == "V":
+        kw = {"w": src.pick([0, 1, 4])} if src.chance(2, 3) else {}
+        if src.chance(1, 3):
+            kw[src.pick(["zz9", "yy8"])] = src.pick([1, "s"])  # collected by V's overflow attribute
+        return ["spec", "V", kw]
     if cname == "U":
         kw = {}
         if src.chance(1, 2):
@@ -302,6 +309,8 @@ def gen_world(src, profile):
     pool = [a for a in ATTR_POOL if a[1][0] in profile.get("kinds", SCALAR_KINDS | {"list", "dict", "set", "spec", "keyedlist", "keyedset"})]
     if profile.get("pool_filter"):
         pool = [a for a in pool if profile["pool_filter"](a)]
+    if not profile.get("with_v"):
+        pool = [a for a in pool if a[0] not in ("vee", "vees")]
     names = []
     # always at least one collection and one nested spec when available (they are what the properties are about)
     must = [a for a in pool if is_collection(a[1])]
@@ -316,6 +325,8 @@ def gen_world(src, profile):
         n = src.pick(pool)[0]
         if n not in names:
             names.append(n)
+    if "vee" in names and "vees" in names:
+        names.remove("vee")  # singular of `vees` would collide with the attribute `vee` (collisions are C16's subject)
     order = [a[0] for a in ATTR_POOL if a[0] in names]
     if src.chance(1, 2):
         order = order[::-1]
@@ -359,6 +370,11 @@ def gen_world(src, profile):
                                        {"name": "v", "type": ["int"], "default": ["lit", 0]},
                                        {"name": "notes", "type": ["list", ["str"]], "default": ["attr_factory", ["list", []]]}]})
 
+    if profile.get("with_v"):
+        world["classes"][0]["attrs"].append({"name": "h", "type": ["int"], "default": ["attr_default", 0], "init": False})
+        world["classes"].append({"name": "V", "kind": "spec", "bases": [], "opts": {"init_overflow_attr": "opts"},
+                                 "attrs": [{"name": "w", "type": ["int"], "default": ["lit", 0]}]})
+
     # split attributes between an optional parent P and M
     has_parent = profile.get("inheritance", True) and src.chance(1, 2) and len(attrs) >= 3
     p_attrs, m_attrs = [], attrs
@@ -389,7 +405,7 @@ def gen_world(src, profile):
     # preparers
     if profile.get("preparers", True):
         for c in world["classes"]:
-            if c["name"] in ("U", "N"):
+            if c["name"] in ("U", "N", "V"):
                 continue
             for a in c["attrs"]:
                 T = a["type"]
@@ -411,7 +427,7 @@ def gen_world(src, profile):
             world["classes"].append(q)
             inst = "Q"
         elif m == 1:
-            extra = [x for x in ATTR_POOL if x[0] not in names and x[1][0] in ("int", "str", "list")]
+            extra = [x for x in ATTR_POOL if x[0] not in names and x[1][0] in ("int", "str", "list") and x[0] not in ("vee", "vees")]
             r = {"name": "R", "kind": "spec", "bases": ["M"], "opts": {}, "attrs": []}
             if extra:
                 x = src.pick(extra)
@@ -610,7 +626,7 @@ class World:
             cls = type(c["name"], tuple(self.classes[b] for b in c["bases"]), ns)
             if c["kind"] == "spec":
                 opts = dict(c.get("opts") or {})
-                eager = desc.get("eager", False) if c["name"] not in ("U", "N") else True
+                eager = desc.get("eager", False) if c["name"] not in ("U", "N", "V") else True
                 cls = spec_class(bootstrap=eager, **opts)(cls)
             self.classes[c["name"]] = cls
             merged = dict(inherited)
